@@ -156,6 +156,8 @@ type histCase struct {
 }
 
 func runHist(r *ev.Recorder, c *histCase) (string, string) {
+	r.Pending(c)
+	defer r.Done()
 	var ks []*dilithium.Dilithium
 	var refs []*dilref.Keys
 	for _, s := range c.Seeds {
